@@ -80,6 +80,19 @@ def load(spec, with_siblings=False):
     sys.modules[name] = mod
     try:
         mspec.loader.exec_module(mod)
+        if spec.get("entry") == "heir_file" and spec["root"] != "F":
+            # second source file: the subclass through which the program is entered; it imports its base class only
+            name2 = name + "_heir"
+            path2 = os.path.join(_scratch(), name2 + ".py")
+            with open(path2, "w") as f:
+                f.write(gen.render_heir_module(spec, name))
+            mspec2 = importlib.util.spec_from_file_location(name2, path2)
+            mod2 = importlib.util.module_from_spec(mspec2)
+            sys.modules[name2] = mod2
+            mod._heir_module = mod2
+            mspec2.loader.exec_module(mod2)
+            mod.ENTRY = mod2.Heir
+            mod.ROOT = (mod2.Heir, mod.ROOT[1])
     except BaseException:
         unload(mod)
         raise
@@ -87,6 +100,9 @@ def load(spec, with_siblings=False):
 
 
 def unload(mod):
+    if getattr(mod, "_heir_module", None) is not None:
+        m2, mod._heir_module = mod._heir_module, None
+        unload(m2)
     sys.modules.pop(mod.__name__, None)
     path = getattr(mod, "__file__", None)
     if path:
@@ -101,12 +117,13 @@ def unload(mod):
 # the interpreter's view of a program
 
 
-def call(mod, kw):
-    """Call the root with keyword arguments kw, then every deferred use.  -> ("ok", log) | (exc type name, message)."""
+def call(mod, kw, pos=()):
+    """Call the root with keyword arguments kw (and positional arguments pos), then every deferred use.
+    -> ("ok", log) | (exc type name, message)."""
     mod.LOG.clear()
     mod.PENDING.clear()
     try:
-        mod._invoke(**kw)
+        mod._invoke(*pos, **kw)
         k = 0
         while k < len(mod.PENDING):
             obj, attr = mod.PENDING[k]
@@ -177,6 +194,25 @@ def interpreter_view(mod, spec):
         expect[n] = cands
     view["renamed"] = renamed
     view.update(bound=bound, expect=expect)
+    # positional-only parameters (round 4): where the program has *args pass-through levels or positional-only
+    # parameters, the root is also called with 1 and 2 positional arguments; the sentinel values show which level binds
+    # them under which positional-only name
+    posbound = {}
+    if any(gen.own_star(l[1]) or gen.own_posonly(l[1]) for l in spec["levels"]):
+        for k in range(1, len(gen.POSONLY) + 1):
+            vals = [gen.positional_sentinel(j) for j in range(k)]
+            kind, log = call(mod, {m: gen.sentinel(m) for m in required}, vals)
+            view["calls"] += 1
+            if kind != "ok":
+                continue
+            for lv, seen in log:
+                for key, val in seen.items():
+                    if key in gen.POSONLY and type(val) is int and val in vals and lv in mod.LEVELS:
+                        p = level_signature(mod, lv).parameters[key]
+                        posbound.setdefault(key, [])
+                        if (lv, p.annotation, p.default) not in posbound[key]:
+                            posbound[key].append((lv, p.annotation, p.default))
+    view["posbound"] = posbound
     return view
 
 
@@ -324,7 +360,7 @@ def callee_chain_takes(spec, j, name):
             return False  # given at the forwarding call: below, the name does not come from **kwargs
         if link == "ncc":
             return True  # the alternative callee names the whole pool
-        if gen.op_hard_positional(op) and j + 1 < len(levels) and [p[0] for p in gen.own_params(levels[j + 1][1])[:1]] == [name]:
+        if gen.op_hard_positional(op) and j + 1 < len(levels) and not gen.own_posonly(levels[j + 1][1]) and [p[0] for p in gen.own_params(levels[j + 1][1])[:1]] == [name]:
             return False
         j += 1
     return False
@@ -426,6 +462,10 @@ def missing_class(spec, views, name):
         return "bound-behind-method-call-on-local-instance"
     lay = spec.get("layout")
     top = spec["levels"][0]
+    if spec.get("entry") == "heir_file" and spec["root"] == "C" and top[0] == "super_skip" and i is not None and i >= 1:
+        # the entry class lives in a second file and inherits an __init__ that calls super(OtherClass, self).__init__:
+        # OtherClass is a global of the file the __init__ is written in, not of the entry class's file
+        return "below-super(OtherClass,self)-call-of-init-inherited-in-another-file"
     if isinstance(lay, dict) and lay["blank"] == 0 and top[0] in gen.SUPER_LINKS and gen.op_hard_positional(top[2]) and i is not None and i >= 1:
         # the root class has no __init__ of its own and the __init__ it inherits gives the first positional parameter
         # at its super().__init__ call; the name is bound below that call
@@ -451,6 +491,9 @@ def names_bound_below_branch(spec, view):
     return {m for m in below if m not in hard and not popped_without_default(spec, m)}
 
 
+NOT_NAMED = ("VAR_POSITIONAL", "VAR_KEYWORD", "POSITIONAL_ONLY")  # a positional-only parameter can not be passed by name
+
+
 def compare(spec, views, params, failed):
     """Deviations between the interpreter's views (one per runtime branch) and the resolver's answer."""
     devs = []
@@ -458,10 +501,30 @@ def compare(spec, views, params, failed):
     def dev(sig, detail):
         devs.append({"signature": sig, "detail": detail})
 
-    named = [p for p in params if p[1] not in ("VAR_POSITIONAL", "VAR_KEYWORD")]
+    named = [p for p in params if p[1] not in NOT_NAMED]
     offered = [p[0] for p in named]
     if len(set(offered)) != len(offered):
         dev("duplicate-name-offered", f"offered {offered}")
+    # positional-only entries of the answer (what *args can reach): exactly the positional-only parameters that some
+    # level binds when the root is called with positional arguments, with that level's annotation and default
+    posonly = [p for p in params if p[1] == "POSITIONAL_ONLY"]
+    posbound = {}
+    for v in views:
+        for key, cands in v.get("posbound", {}).items():
+            posbound.setdefault(key, []).extend(cands)
+    if len({p[0] for p in posonly}) != len(posonly):
+        dev("duplicate-name-offered", f"positional-only {[p[0] for p in posonly]}")
+    for name, kind, ann, dflt, origin in posonly:
+        if name not in posbound:
+            dev("offered-but-rejected:positional-only-parameter", f"{name!r} is reported as positional-only but no positional argument ever reaches a parameter of that name")
+        elif not any(ann is c[1] and type(dflt) is type(c[2]) and dflt == c[2] for c in posbound[name]):
+            dev("wrong-default:positional-only-parameter", f"{name!r}: resolver ({show(ann)}, {show(dflt)}), binding {[(c[0], show(c[1]), show(c[2])) for c in posbound[name]]}")
+    # group_parameters drops positional-only parameters on purpose where several uses of one **kwargs are merged
+    # (kwargs.pop/get + a call, two runtime branches): a positional-only parameter is demanded only in programs
+    # in which every level uses its **kwargs once
+    single_use = not any(l[0] in ("ncc", "inst_method") or (gen.op_popget(l[2]) or "N")[0] in "PG" for l in spec["levels"])
+    for name in sorted(set(posbound) - {p[0] for p in posonly}) if single_use else []:
+        dev("missing:positional-only-parameter-reached-through-*args", f"{name!r} is bound by a positional argument at {[c[0] for c in posbound[name]]} but not reported; answer {canon_params(params)}")
     accepted_raw = set().union(*[v["accepted"] for v in views])
     expected = set().union(*[{n for n in v["accepted"] if v["bound"][n]} for v in views])
     symptoms = []
@@ -529,7 +592,7 @@ def call_with_all_offered(mod, spec, views, params):
     for v in views:
         kw = {n: gen.sentinel(n) for n in v["required"]}
         for name, kind, ann, dflt, _ in params:
-            if kind in ("VAR_POSITIONAL", "VAR_KEYWORD") or _is_conditional(dflt) or popped_without_default(spec, name):
+            if kind in NOT_NAMED or _is_conditional(dflt) or popped_without_default(spec, name):
                 continue
             kw[name] = gen.sentinel(name)
         mod.SEL.clear()
@@ -552,17 +615,20 @@ def parser_check(mod, spec, views, params):
 
     fc, meth = mod.ROOT
     parser = jsonargparse.ArgumentParser(exit_on_error=False)
+    # positional-only parameters can not be given by name: that add_*_arguments offers them (for any signature, with or
+    # without forwarding) is not a statement about **kwargs resolution; they are skipped, as a user has to
+    skip = {p[0] for p in params if p[1] == "POSITIONAL_ONLY"} or None
     try:
         if meth is not None:
-            added = parser.add_method_arguments(fc, meth, "r")
+            added = parser.add_method_arguments(fc, meth, "r", skip=skip)
         elif inspect.isclass(fc):
-            added = parser.add_class_arguments(fc, "r")
+            added = parser.add_class_arguments(fc, "r", skip=skip)
         else:
-            added = parser.add_function_arguments(fc, "r")
+            added = parser.add_function_arguments(fc, "r", skip=skip)
     except Exception as ex:
         dev(f"parser:add-arguments-raises:{type(ex).__name__}", str(ex)[:300])
         return devs
-    named = [p for p in params if p[1] not in ("VAR_POSITIONAL", "VAR_KEYWORD")]
+    named = [p for p in params if p[1] not in NOT_NAMED]
     offered = [p[0] for p in named]
     got = [a.split(".", 1)[1] for a in added]
     if sorted(got) != sorted(set(offered)):
@@ -837,6 +903,59 @@ def _thorough_depth4(root, links):
     return _no_branching(root, links) and not any(l in ("cc_elifnot", "cc_else") for l in links[1:]) and _own_spelling_inside_super_chain(root, links)
 
 
+def _has_star(levels):
+    """at least one level takes *args and passes them on"""
+    return any(gen.own_star(own) for _, own, _ in levels)
+
+
+def _has_deferred(root, links):
+    return any(l in gen.DEFERRED for l in links)
+
+
+def _quick_depth3_deferred(root, links):
+    return _has_deferred(root, links) and _quick_depth3(root, links)
+
+
+_ARGS_CHAIN = ("super", "call_fn", "call_cls", "self_method", "super_method")
+
+
+def _args_depth2(root, links):
+    """no runtime branch / local instance (several uses of **kwargs: positional-only parameters are dropped by design,
+    the named parameters behave as without *args, which depth2 covers); constant conditionals in the `if` form only"""
+    return not any(l in ("ncc", "inst_method", "cc_elifnot", "cc_else") for l in links)
+
+
+def _plain_depth3(root, links):
+    """depth 3 of the inherited-entry axis: no runtime branch / local instance, constant conditionals in the `if` form"""
+    return _quick_depth3(root, links) and not any(l in ("ncc", "inst_method", "cc_elifnot", "cc_else") for l in links)
+
+
+def _args_chain(root, links):
+    """depth 3 of the *args axis: chains of plain calls (no conditionals, no deferred uses, no local instance)"""
+    return all(l in _ARGS_CHAIN for l in links[:-1])
+
+
+_USE_ELSEWHERE = [{"use_in": "base"}, {"use_in": "mixin"}]
+_INHERITED_ENTRY = [{"entry": "heir"}, {"entry": "heir_file"}]
+_CLASS_ROOTS = ["C", "K", "M"]
+
+
+def round4_families(tier):
+    """Families of the round-4 axes (notes §8): *args pass-through / positional-only parameters, the member that uses a
+    saved **kwargs attribute defined on another class, entry through a subclass that inherits the root's method
+    (same file / second source file)."""
+    quick = tier == "quick"
+    return [
+        dict(name="depth2/args-pass-through", depths=[2], size="args", checks="full", same=False, link_filter=_args_depth2, level_filter=_has_star),
+        dict(name="depth3/args-pass-through", depths=[3], size="args3", checks="resolve", same=False, link_filter=_args_chain, level_filter=_has_star, aux=False),
+        dict(name="depth2/deferred-use-in-another-class", depths=[2], size="small" if quick else "mid", checks="full", same=False, link_filter=_has_deferred, aux=False, variants=_USE_ELSEWHERE),
+        dict(name="depth3/deferred-use-in-another-class", depths=[3], size="tiny" if quick else "small", checks="resolve", same=False, link_filter=_quick_depth3_deferred, aux=False, variants=_USE_ELSEWHERE[:1] if quick else _USE_ELSEWHERE),
+        dict(name="depth1-2/inherited-entry/second-file", depths=[1, 2], size="small" if quick else "mid", checks="full", same=False, roots=_CLASS_ROOTS, aux=False, variants=_INHERITED_ENTRY[1:]),
+        dict(name="depth1-2/inherited-entry/same-file", depths=[1, 2], size="small" if quick else "mid", checks="resolve" if quick else "full", same=False, roots=_CLASS_ROOTS, aux=False, variants=_INHERITED_ENTRY[:1]),
+        dict(name="depth3/inherited-entry/second-file", depths=[3], size="tiny" if quick else "small", checks="resolve", same=False, roots=_CLASS_ROOTS, link_filter=_plain_depth3 if quick else _quick_depth3, aux=False, variants=_INHERITED_ENTRY[1:]),
+    ]
+
+
 def families(tier):
     """The stated program space: a list of families, each enumerated completely.
 
@@ -846,12 +965,12 @@ def families(tier):
         return [
             dict(name="depth1", depths=[1], size="full", checks="full", same=True),
             dict(name="depth2", depths=[2], size="mid", checks="full", same=True),
-            dict(name="depth3", depths=[3], size="small", checks="resolve", same=False, link_filter=_quick_depth3, aux=False, siblings=True),
+            dict(name="depth3", depths=[3], size="small-get", checks="resolve", same=False, link_filter=_quick_depth3, aux=False, siblings=True),
             dict(name="hierarchy4", depths=[4], size="tiny4", checks="resolve", same=False, link_filter=_pure_hierarchy, rich=True, siblings=True),
             dict(name="hierarchy2+blank", depths=[2], size="small+", checks="full", same=True, link_filter=_pure_hierarchy, blank=True, siblings=True),
             dict(name="hierarchy2+blank/own-class-super", depths=[2], size="small", checks="resolve", same=False, link_filter=_pure_hierarchy_own_spelling, blank=True, siblings=True),
             dict(name="hierarchy3+blank", depths=[3], size="tiny4", checks="resolve", same=False, link_filter=_pure_hierarchy, blank=True),
-        ]
+        ] + round4_families(tier)
     return [
         dict(name="depth1", depths=[1], size="full", checks="full", same=True),
         dict(name="depth2", depths=[2], size="full", checks="full", same=True),
@@ -863,7 +982,7 @@ def families(tier):
         dict(name="hierarchy3+blank", depths=[3], size="small", checks="resolve", same=False, link_filter=_pure_hierarchy, blank=True, siblings=True),
         dict(name="hierarchy3+blank/own-class-super", depths=[3], size="tiny", checks="resolve", same=False, link_filter=_pure_hierarchy_own_spelling, blank=True, siblings=True),
         dict(name="hierarchy4+blank", depths=[4], size="tiny", checks="resolve", same=False, link_filter=_pure_hierarchy, blank=True),
-    ]
+    ] + round4_families(tier)
 
 
 def family_programs(fam):
@@ -875,6 +994,9 @@ def family_programs(fam):
         same_scheme_depths=tuple(fam["depths"]) if fam.get("same") else (),
         aux_layouts=fam.get("aux", True),
         blank=fam.get("blank", False),
+        roots=fam.get("roots", gen.ROOTS),
+        level_filter=fam.get("level_filter"),
+        variants=fam.get("variants"),
     )
 
 
@@ -905,6 +1027,8 @@ def explore(ctx):
         batches.append(batch)
     valid = invalid = calls = resolves = nonbox = crashed = parsed = swallow = cond = branching = 0
     inline = after = blank = regiven = own_spelling = sib_programs = sib_classes = sib_distinct = 0
+    star = star_posonly = star_kwonly = 0
+    use_elsewhere, entries = {}, {}
     blank_positions = set()
     answers = set()
     shapes_valid = set()
@@ -938,6 +1062,13 @@ def explore(ctx):
             sib_programs += bool(res.get("siblings"))
             sib_classes += res.get("siblings", 0)
             sib_distinct += res.get("siblings_distinct", 0)
+            ans_kinds = {p[1] for p in (res["offered"] or [])}
+            nonempty = bool(ans_kinds - {"VAR_POSITIONAL", "VAR_KEYWORD"})
+            star += nonempty and any(gen.own_star(l[1]) for l in spec["levels"])
+            star_posonly += "POSITIONAL_ONLY" in ans_kinds and any(gen.own_star(l[1]) for l in spec["levels"])
+            star_kwonly += "POSITIONAL_ONLY" in ans_kinds and "KEYWORD_ONLY" in ans_kinds and gen.own_star(spec["levels"][0][1])
+            use_elsewhere[spec.get("use_in", "own")] = use_elsewhere.get(spec.get("use_in", "own"), 0) + (nonempty and any(l[0] in gen.DEFERRED for l in spec["levels"]))
+            entries[spec.get("entry", "own")] = entries.get(spec.get("entry", "own"), 0) + (nonempty and spec["levels"][0][0] not in gen.TERMINALS + list(gen.SUPER_LINKS))
             if isinstance(spec["layout"], dict):
                 blank += 1
                 if res["offered"]:
@@ -979,6 +1110,13 @@ def explore(ctx):
     ctx.count("programs_checked_against_sibling_hierarchies", sib_programs)
     ctx.count("sibling_hierarchies_resolved_before_and_after_the_program", sib_classes)
     ctx.count("sibling_hierarchies_whose_answer_differs_from_the_program_s", sib_distinct)
+    ctx.count("programs_with_args_pass_through_and_non_empty_answer", star)
+    ctx.count("programs_with_positional_only_parameters_resolved_through_args", star_posonly)
+    ctx.count("programs_whose_root_has_keyword_only_parameters_between_resolved_args_and_kwargs", star_kwonly)
+    ctx.count("programs_with_deferred_use_member_on_base_class_non_empty_answer", use_elsewhere.get("base", 0))
+    ctx.count("programs_with_deferred_use_member_on_mixin_non_empty_answer", use_elsewhere.get("mixin", 0))
+    ctx.count("programs_entered_through_inheriting_subclass_same_file_forwarding_to_a_module_global", entries.get("heir", 0))
+    ctx.count("programs_entered_through_inheriting_subclass_in_second_file_forwarding_to_a_module_global", entries.get("heir_file", 0))
     ctx.cover(
         evaluations=n_programs,
         states=valid,
@@ -1015,4 +1153,7 @@ def explore(ctx):
     ctx.require(blank > 100 and blank_positions == want_positions, "a class without __init__ occurs at every position of the hierarchies (with a non-empty answer)")
     ctx.require(links_valid == set(gen.TARGET) | set(gen.TERMINALS), "every link pattern occurs in a valid program")
     ctx.require(regiven > 100 and own_spelling > 100, "valid programs with kwargs.get of a name given again at the same call, and with the explicit own-class super spelling (non-empty answer), occur")
+    ctx.require(star > 500 and star_posonly > 200 and star_kwonly > 50, "programs with *args pass-through: non-empty answers, positional-only parameters resolved through *args, keyword-only own parameters between them and **kwargs")
+    ctx.require(use_elsewhere.get("base", 0) > 100 and use_elsewhere.get("mixin", 0) > 50, "deferred uses of a saved **kwargs attribute in a member of a base class and of a mixin (non-empty answer)")
+    ctx.require(entries.get("heir", 0) > 100 and entries.get("heir_file", 0) > 100, "programs entered through a subclass that inherits the root's method, in the same and in a second source file, whose root level forwards to a callable other than super (non-empty answer)")
     ctx.require(sib_programs > 100 and sib_distinct > 100, "programs are re-resolved around sibling hierarchies whose own answer differs from theirs")
